@@ -102,6 +102,85 @@
         }
         worker.soft_stop();
         let _ = worker.wait_for_server_stop();
+        // ---- HTTP/2 front, HTTP/1.1 backend: a Content-Length framed request with a trailer section, then a second request
+        {
+            use crate::tests::h2_utils::{h2_handshake, raw_h2_connection, H2Frame};
+            use sozu_command_lib::proto::command::{AddCertificate, CertificateAndKey, RequestHttpFrontend, SocketAddress};
+            fn lit(buf: &mut Vec<u8>, name: &[u8], value: &[u8]) { buf.push(0x00); buf.push(name.len() as u8); buf.extend_from_slice(name); buf.push(value.len() as u8); buf.extend_from_slice(value); }
+            let front_port = crate::port_registry::provide_port();
+            let front = SocketAddress::new_v4(127, 0, 0, 1, front_port);
+            let (config, listeners, state) = Worker::empty_https_config(front.clone().into());
+            let mut worker = Worker::start_new_worker_owned("VERIF-H1WIRE-H2", config, listeners, state);
+            worker.send_proxy_request_type(RequestType::AddHttpsListener(ListenerBuilder::new_https(front.clone()).to_tls(None).unwrap()));
+            worker.send_proxy_request_type(RequestType::ActivateListener(ActivateListener { address: front.clone(), proxy: ListenerType::Https.into(), from_scm: false }));
+            worker.send_proxy_request_type(RequestType::AddCluster(Worker::default_cluster("cluster_0")));
+            worker.send_proxy_request_type(RequestType::AddHttpsFrontend(RequestHttpFrontend { hostname: String::from("localhost"), ..Worker::default_http_frontend("cluster_0", front.clone().into()) }));
+            worker.send_proxy_request_type(RequestType::AddCertificate(AddCertificate { address: front.clone(), certificate: CertificateAndKey { certificate: String::from(include_str!("../../../lib/assets/local-certificate.pem")), key: String::from(include_str!("../../../lib/assets/local-key.pem")), certificate_chain: vec![], versions: vec![], names: vec![] }, expired_at: None }));
+            let back_address = create_local_address();
+            worker.send_proxy_request_type(RequestType::AddBackend(Worker::default_backend("cluster_0", "cluster_0-0", back_address, None)));
+            worker.read_to_last();
+            let back = crate::port_registry::bind_std_listener(back_address, "raw recording backend (h2 case)");
+            back.set_nonblocking(true).unwrap();
+            let mut tls = raw_h2_connection(std::net::SocketAddr::from(([127, 0, 0, 1], front_port)));
+            h2_handshake(&mut tls);
+            let mut h1 = Vec::new();
+            lit(&mut h1, b":method", b"POST"); lit(&mut h1, b":scheme", b"https"); lit(&mut h1, b":path", b"/upload"); lit(&mut h1, b":authority", b"localhost"); lit(&mut h1, b"content-length", b"5");
+            let mut tr = Vec::new();
+            lit(&mut tr, b"x-foo", b"bar");
+            let mut h2 = Vec::new();
+            lit(&mut h2, b":method", b"GET"); lit(&mut h2, b":scheme", b"https"); lit(&mut h2, b":path", b"/next"); lit(&mut h2, b":authority", b"localhost");
+            n += 1;
+            let _ = tls.write_all(&H2Frame::headers(1, h1, true, false).encode());
+            let _ = tls.write_all(&H2Frame::data(1, b"hello".to_vec(), false).encode());
+            let _ = tls.write_all(&H2Frame::headers(1, tr, true, true).encode());
+            let _ = tls.flush();
+            // record the backend connection that carries the POST, answer it, then send the second request
+            let mut streams: Vec<Vec<u8>> = Vec::new();
+            let mut deadline = Instant::now() + Duration::from_millis(4000);
+            let mut second_sent = false;
+            loop {
+                match back.accept() {
+                    Ok((mut conn, _)) => {
+                        conn.set_nonblocking(false).unwrap();
+                        conn.set_read_timeout(Some(Duration::from_millis(500))).unwrap();
+                        let mut seen = Vec::new();
+                        let mut buf = [0u8; 8192];
+                        loop { match conn.read(&mut buf) { Ok(0) => break, Ok(k) => seen.extend_from_slice(&buf[..k]), Err(_) => break } }
+                        let _ = conn.write_all(b"HTTP/1.1 200 OK\r\nContent-Length: 2\r\n\r\nok");
+                        if !second_sent {
+                            second_sent = true;
+                            let _ = tls.write_all(&H2Frame::headers(3, h2.clone(), true, true).encode());
+                            let _ = tls.flush();
+                            // what arrives on the SAME backend connection after the first answer
+                            conn.set_read_timeout(Some(Duration::from_millis(700))).unwrap();
+                            loop { match conn.read(&mut buf) { Ok(0) => break, Ok(k) => seen.extend_from_slice(&buf[..k]), Err(_) => break } }
+                            let _ = conn.write_all(b"HTTP/1.1 200 OK\r\nContent-Length: 2\r\n\r\nok");
+                        }
+                        streams.push(seen);
+                        deadline = Instant::now() + Duration::from_millis(700);
+                    }
+                    Err(_) if Instant::now() < deadline => thread::sleep(Duration::from_millis(20)),
+                    Err(_) => break,
+                }
+            }
+            if !streams.is_empty() { forwarded += 1; }
+            let name = "H2 front: HEADERS(POST /upload, content-length: 5), DATA(hello), trailer HEADERS(x-foo: bar, END_STREAM), then GET /next on stream 3";
+            'h2case: for (si, seen) in streams.iter().enumerate() {
+                let heads = heads_seen_by_backend(seen);
+                println!("N-h1wire case {name:?}: backend connection #{si} received {} octets, {} request head(s): {:?}", seen.len(), heads.len(), heads.iter().map(|h| h.lines().next().unwrap_or("").to_string()).collect::<Vec<_>>());
+                for (k, h) in heads.iter().enumerate() {
+                    if !h.to_ascii_lowercase().contains("\nsozu-id:") {
+                        fails.push((name.to_string(), format!("on the HTTP/1.1 backend connection, message #{k} as the backend frames the bytes starts with {:?}: octets that are not a request sozu processed follow a Content-Length framed body; bytes received by the backend: {:?}", h.lines().next().unwrap_or(""), String::from_utf8_lossy(seen))));
+                        break 'h2case;
+                    }
+                }
+                // octets after the last complete head + body that are not a head at all (no empty line yet) are stray too
+                let lower = String::from_utf8_lossy(seen).to_ascii_lowercase();
+                if lower.contains("x-foo") { fails.push((name.to_string(), format!("the trailer field reached the HTTP/1.1 backend after a Content-Length framed body: {:?}", String::from_utf8_lossy(seen)))); break 'h2case; }
+            }
+            worker.soft_stop();
+            let _ = worker.wait_for_server_stop();
+        }
         let fl: Vec<String> = fails.iter().map(|(i, o)| format!("{{\"input\": {:?}, \"observed\": {:?}}}", i, o)).collect();
-        println!("{{\"bound\": \"5 client byte strings through a real worker to a recording backend\", \"states\": {n}, \"pairs\": {n}, \"nontrivial_pairs\": {forwarded}, \"failures\": [{}]}}", fl.join(", "));
+        println!("{{\"bound\": \"5 HTTP/1.1 client byte strings and 1 HTTP/2 scenario (Content-Length framed request with trailers, then a second request) through a real worker to a recording backend\", \"states\": {n}, \"pairs\": {n}, \"nontrivial_pairs\": {forwarded}, \"failures\": [{}]}}", fl.join(", "));
     }
